@@ -1214,6 +1214,11 @@ rrul_fill_mly(echs_instant_t *restrict tgt, size_t nti, rrulsp_t rr)
 		y -= m <= 0;
 		m += m > 0 ? 0 : 12;
 		m = m > 0 ? m : 1;
+		if (m > 12) {
+			/* a negative shift starts later, possibly in the next year */
+			y += (m - 1) / 12;
+			m = (m - 1) % 12 + 1;
+		}
 	}
 
 	/* get m on track */
